@@ -156,10 +156,10 @@ PROPS = {
     },
     'C08': {
         'level': 'proof',
-        'level_text': 'Verus proves the default methods of trait Input (match_string, match_insensitive, match_range, match_char_by, next, at_start, at_end, span, as_position) and the three implementations (Position, SubInput1, SubInput2: byte_offset, input, get, cursor, start, end) and the AsInput conversions against contracts in which result and advance are functions of rest(ctx, off) = bytes[off..end] alone, with SOI/EOI decided by off == start / off == end; so nothing at or beyond the span end can influence a matcher. Input::skip and chars are proved too (vstd Chars model; UTF-8 boundary lemmas proved from vstd definitions). Only skip_until has its contract assumed in Verus (`continue` in a for loop is unsupported) and is checked by bounded native enumeration; the end-to-end statement (Span/Position vs fresh copy on generated rules) is a bounded stand-in.',
+        'level_text': 'Verus proves the default methods of trait Input (match_string, match_insensitive, match_range, match_char_by, next, at_start, at_end, span, as_position) and the three implementations (Position, SubInput1, SubInput2: byte_offset, input, get, cursor, start, end) and the AsInput conversions against contracts in which result and advance are functions of rest(ctx, off) = bytes[off..end] alone, with SOI/EOI decided by off == start / off == end (the SOI and EOI node types are proved against exactly that in unit nodes, also when a cursor is converted with as_position(), whose result is judged against the bounds 0 and len of the whole string); so nothing at or beyond the span end can influence a matcher. Input::skip and chars are proved too (vstd Chars model; UTF-8 boundary lemmas proved from vstd definitions). Only skip_until has its contract assumed in Verus (`continue` in a for loop is unsupported) and is checked by bounded native enumeration; the end-to-end statement (Span/Position vs fresh copy on generated rules) is a bounded stand-in.',
         'level_note': NOTE_COMMON + 'Assumes the specs of the std shims (R3), the contract of skip_until, and that the length of a str fits usize; ptr::eq on inputs modelled as value equality. The lifting from per-matcher contracts to every node type is an argument, not a proved lemma.',
         'technique': TECH,
-        'verus': ['input', 'leaf'],
+        'verus': ['input', 'leaf', 'nodes'],
         'expanded': False,
         'kani': [],
         'native': [
